@@ -625,9 +625,13 @@ class TrigTime:
                 year, month, day = int(match0[1]), int(match0[2]), int(match0[3])
             else:
                 month, day = int(match0[1]), int(match0[2])
-                if day_offset > 0:
-                    # this year's date has passed, so the caller asks for next year's
+                # the caller asks for the first year whose date is at least day_offset days
+                # after this year's (the time has passed, or an offset moved it across a year end)
+                this_year = dt.date(year, month, day)
+                while (dt.date(year, month, day) - this_year).days < day_offset:
                     year += 1
+                while (dt.date(year - 1, month, day) - this_year).days >= day_offset:
+                    year -= 1
             day_offset = 0  # explicit date means no offset
             fixed_date = True
             dt_str = dt_str[len(match0.group(0)) :]
